@@ -33,7 +33,8 @@ func runC14(p *core.Prog, r *core.Report) {
 
 	// ---- R1
 	nStart := 0
-	for f := range reachableFrom(p, t.Worker) {
+	for _, f := range viewFuncs(p, t.Worker) {
+		f := f
 		sx.Instrs(f, func(in ssa.Instruction) {
 			c, ok := in.(ssa.CallInstruction)
 			if !ok || !t.isStart(c) {
@@ -266,7 +267,14 @@ func runC14(p *core.Prog, r *core.Report) {
 				return 0, false
 			}
 			args := sx.Args(c)
-			if len(args) == 0 || !sx.Origins(args[0])[t.fieldKey(cnt)] {
+			if len(args) == 0 {
+				return 0, false
+			}
+			if fa, isFA := args[0].(*ssa.FieldAddr); isFA {
+				if sx.FieldOf(fa) != cnt { // a value field: its address is the receiver
+					return 0, false
+				}
+			} else if !sx.Origins(args[0])[t.fieldKey(cnt)] {
 				return 0, false
 			}
 			if strings.HasSuffix(n, ".Add") && len(args) == 2 {
@@ -292,29 +300,35 @@ func runC14(p *core.Prog, r *core.Report) {
 		}
 		hdr := outerLoop(t.Queue)
 		incs, decs := map[ssa.Instruction]bool{}, map[ssa.Instruction]bool{}
-		for _, fn := range p.ModuleFuncs() {
-			sx.Instrs(fn, func(in ssa.Instruction) {
-				c, ok := in.(ssa.CallInstruction)
-				if !ok {
-					return
-				}
-				d, is := isCnt(c)
-				if !is {
-					return
-				}
-				where := fnName(fn) + " at " + p.Pos(in.Pos())
-				_, isCall := c.(*ssa.Call)
-				switch {
-				case d == 100:
-					r.Check(fn == t.Status, "C14-R3", "counter read in "+fnName(fn), p.Pos(in.Pos()), "Status reads the counter", "counter read outside Status")
-				case d == 1 && fn == t.Queue && isCall && hdr != nil && hdr.Dominates(in.Block()):
-					incs[in] = true
-				case d == -1 && fn == t.Queue && isCall && hdr != nil && hdr.Dominates(in.Block()):
-					decs[in] = true
-				default:
-					r.Fail("C14-R3", "counter modified in "+fnName(fn), p.Pos(in.Pos()), "the pending counter is modified outside the paired +1/-1 of the queue loop ("+where+", delta "+fmt.Sprint(d)+"): the count can leave [0, laneSize] (e.g. wrap below zero)")
-				}
-			})
+		seenCnt := map[ssa.Instruction]bool{}
+		for _, v := range t.Views {
+			for _, fn := range sx.WithClosures(v.Fn) {
+				sx.Instrs(fn, func(in ssa.Instruction) {
+					c, ok := in.(ssa.CallInstruction)
+					if !ok {
+						return
+					}
+					d, is := isCnt(c)
+					if !is {
+						return
+					}
+					where := fnName(v.Root) + " at " + p.Pos(in.Pos())
+					_, isCall := c.(*ssa.Call)
+					inQueue := fn == t.Queue
+					switch {
+					case d == 100:
+						r.Check(sameFn(v.Root, t.Status), "C14-R3", "counter read in "+fnName(v.Root), p.Pos(in.Pos()), "Status reads the counter", "counter read outside Status")
+					case d == 1 && inQueue && isCall && hdr != nil && hdr.Dominates(in.Block()):
+						incs[in] = true
+						seenCnt[sx.OrigInstr(in)] = true
+					case d == -1 && inQueue && isCall && hdr != nil && hdr.Dominates(in.Block()):
+						decs[in] = true
+						seenCnt[sx.OrigInstr(in)] = true
+					default:
+						r.Fail("C14-R3", "counter modified in "+fnName(v.Root), p.Pos(in.Pos()), "the pending counter is modified outside the paired +1/-1 of the queue loop ("+where+", delta "+fmt.Sprint(d)+"): the count can leave [0, laneSize] (e.g. wrap below zero)")
+					}
+				})
+			}
 		}
 		if hdr == nil {
 			r.Fail("C14-R3", "queue loop", p.FuncPos(t.Queue), "no loop")
